@@ -9,7 +9,135 @@ import ast
 import hashlib
 import os
 
+import json
+
 REPO = os.environ.get("PYVC_REPO", "/repo")
+HERE = os.path.dirname(os.path.dirname(os.path.abspath(__file__)))
+LOCALS_LOCK_PATH = os.path.join(HERE, "locals.lock.json")
+try:
+    LOCALS_LOCK = json.load(open(LOCALS_LOCK_PATH))
+except Exception:
+    LOCALS_LOCK = {}
+RENAMES = {}        # function -> {new local name: locked name} applied on this run (reported in evidence)
+
+
+def own_locals(fn):
+    """non-parameter names bound in fn's own scope, in order of first binding (source order)"""
+    params = {a.arg for a in fn.args.posonlyargs + fn.args.args + fn.args.kwonlyargs}
+    for a in (fn.args.vararg, fn.args.kwarg):
+        if a is not None:
+            params.add(a.arg)
+    out, declared = [], set()
+    def add(nm):
+        if nm and nm not in params and nm not in out and nm not in declared:
+            out.append(nm)
+    def rec(n):
+        if isinstance(n, (ast.Global, ast.Nonlocal)):
+            declared.update(n.names)
+        elif isinstance(n, ast.Name) and isinstance(n.ctx, (ast.Store, ast.Del)):
+            add(n.id)
+        elif isinstance(n, ast.ExceptHandler):
+            add(n.name)
+        elif isinstance(n, ast.alias):
+            add((n.asname or n.name).split(".")[0])
+        for c in ast.iter_child_nodes(n):
+            if isinstance(c, (ast.FunctionDef, ast.AsyncFunctionDef, ast.ClassDef)):
+                add(c.name)
+                continue
+            if isinstance(c, ast.Lambda):
+                continue
+            rec(c)
+    for st in fn.body:
+        if isinstance(st, (ast.FunctionDef, ast.AsyncFunctionDef, ast.ClassDef)):
+            add(st.name)
+            continue
+        rec(st)
+    return out
+
+
+def loop_headers(fi):
+    """loop key -> header text (`while <test>` / `for <target> in <iter>`) of fi's own loops"""
+    out = {}
+    for n in _walk_own(fi.node):
+        k = fi.loop_keys.get(id(n))
+        if k is not None:
+            out[k] = ("while " + ast.unparse(n.test)) if isinstance(n, ast.While) else f"for {ast.unparse(n.target)} in {ast.unparse(n.iter)}"
+    return out
+
+
+def write_locals_lock():
+    """record the local names and the loop headers of every function of the package (PYVC_WRITE_LOCK=1, unchanged tree)"""
+    lock = {}
+    pkg = os.path.join(REPO, "stackscope")
+    for fnm in sorted(os.listdir(pkg)):
+        if fnm.endswith(".py"):
+            m = Module("stackscope." + fnm[:-3], os.path.join(pkg, fnm))
+            for q, fi in m.funcs.items():
+                lock[f"{m.name}.{q}"] = own_locals(fi.node)
+                lock[f"loops:{m.name}.{q}"] = loop_headers(fi)
+    json.dump(lock, open(LOCALS_LOCK_PATH, "w"), indent=0, sort_keys=True)
+    return len(lock)
+
+
+def changed_loops(func_loop_pairs):
+    """which of the given (function, loop key) pairs have a header that differs from the locked one (after alpha-normalisation)"""
+    out = []
+    for fn, key in func_loop_pairs:
+        locked = LOCALS_LOCK.get("loops:" + fn)
+        if locked is None:
+            continue
+        try:
+            cur = loop_headers(get_func(fn))
+        except KeyError:
+            continue
+        if cur.get(key) != locked.get(key):
+            out.append(f"{fn}:{key} was `{locked.get(key)}`, is `{cur.get(key)}`")
+    return out
+
+
+def _binds_any(fn, names):
+    """does a nested def/lambda/class inside fn (not fn itself) bind one of `names`?"""
+    for n in ast.walk(fn):
+        if n is fn:
+            continue
+        if isinstance(n, (ast.FunctionDef, ast.AsyncFunctionDef, ast.Lambda)):
+            a = n.args
+            ps = {x.arg for x in a.posonlyargs + a.args + a.kwonlyargs} | {x.arg for x in (a.vararg, a.kwarg) if x is not None}
+            if ps & names:
+                return True
+            if not isinstance(n, ast.Lambda) and set(own_locals(n)) & names:
+                return True
+    return False
+
+
+def alpha_normalise(name, fn):
+    """If the only difference between fn's local names and the locked ones is a renaming (some names vanished, equally many
+    new ones appeared), rename the new ones back (paired in order of first binding) so that sidecar contracts, which name
+    locals, keep applying.  Purely syntactic, capture-checked; a bijective renaming of locals preserves behaviour."""
+    old = LOCALS_LOCK.get(name)
+    if not old or os.environ.get("PYVC_WRITE_LOCK"):
+        return
+    cur = own_locals(fn)
+    new_names = [c for c in cur if c not in old]
+    gone = [o for o in old if o not in cur]
+    if not new_names or len(new_names) != len(gone):
+        return
+    mapping = dict(zip(new_names, gone))
+    used = {n.id for n in ast.walk(fn) if isinstance(n, ast.Name)} | {a.arg for a in ast.walk(fn) if isinstance(a, ast.arg)}
+    if set(gone) & used or _binds_any(fn, set(new_names) | set(gone)):
+        return          # would capture another variable: leave the code alone (contracts will report a lost anchor)
+    for n in ast.walk(fn):
+        if isinstance(n, ast.Name) and n.id in mapping:
+            n.id = mapping[n.id]
+        elif isinstance(n, ast.ExceptHandler) and n.name in mapping:
+            n.name = mapping[n.name]
+        elif isinstance(n, ast.alias) and (n.asname or n.name) in mapping:
+            n.asname = mapping[n.asname or n.name]
+        elif isinstance(n, (ast.Global, ast.Nonlocal)):
+            n.names = [mapping.get(x, x) for x in n.names]
+        elif isinstance(n, (ast.FunctionDef, ast.AsyncFunctionDef, ast.ClassDef)) and n is not fn and n.name in mapping:
+            n.name = mapping[n.name]
+    RENAMES[name] = mapping
 
 
 class FuncInfo:
@@ -67,6 +195,7 @@ class Module:
         for n in body:
             if isinstance(n, (ast.FunctionDef, ast.AsyncFunctionDef)):
                 q = prefix + n.name
+                alpha_normalise(f"{s.name}.{q}", n)
                 fi = FuncInfo(s.name, q, n, parent, cls)
                 s.funcs[q] = fi
                 s._index(n.body, q + ".", fi, None)
